@@ -22,7 +22,8 @@ RULE = ('a case = generated graph history (as C07) + pack time + gc + mode; mode
         'full battery equals the history model (unchanged), the commit lock is free, the next transaction and the next pack work; '
         'a second pack while one is marked in progress is refused; evaluations = crash images + fault points; non-trivial = crash '
         'image taken after the first .pack write / fault after >= 1 copied transaction; mode threads (1/3 of the cases): a packer '
-        'thread (pack time now, or 0.5/1.5 s back), optionally a second packer, and 1-3 committer/reader threads on one FileStorage '
+        'thread (pack time now, or 0.5/1.5 s back), optionally a second packer, and 1-3 committer/reader/undoer threads (undo of '
+        'write transactions committed during the run) on one FileStorage '
         'with superseded revisions, scheduled by vlib/sched.py (yield points: lock operations, file operations, optionally every '
         'line of pack/copyOne/copyRest/tpc_vote/tpc_finish); oracle: no deadlock, no exception other than ConflictError, every '
         'commit that returned is in the storage and in the reopened packed file unless its revisions were superseded not later '
@@ -31,14 +32,14 @@ RULE = ('a case = generated graph history (as C07) + pack time + gc + mode; mode
         'hash | case hash, fault index)')
 ASSUMPTIONS = ['crash model: prefix of the recorded operations across the five files in issue order; renames/removes atomic',
                'thread cases: preemption only at the scheduler\'s yield points (ZODB lock/condition operations, storage file '
-               'operations, lines of the watched pack/commit functions); undo threads are not generated; schedules are sampled']
+               'operations, lines of the watched pack/commit/undo functions); schedules are sampled']
 BUDGET = {'quick': {'examples': 2500, 'workers': 8},
           'thorough': {'examples': 25000, 'workers': 16}}
 
 
 def thread_strategy():
     from vlib import threadprog
-    roles = st.sampled_from(['committer', 'committer', 'reader'])
+    roles = st.sampled_from(['committer', 'committer', 'committer', 'reader', 'undoer'])
     return st.fixed_dictionaries({
         'mode': st.just('threads'),
         'programs': st.lists(roles.flatmap(lambda r: st.tuples(st.just(r), threadprog.program_strategy(r)).map(list)),
@@ -70,7 +71,7 @@ def execute_threads(case):
             threads.append(('%s%d' % (role[0], i), tr.body('%s%d' % (role[0], i), prog, role)))
         FS = sys.modules['ZODB.FileStorage.FileStorage'].FileStorage
         funcs = [FS.pack, FileStoragePacker.pack, FileStoragePacker.copyOne, FileStoragePacker.copyRest,
-                 FS.tpc_finish, FS._finish_finish, FS.tpc_vote] if case.get('lines') else ()
+                 FS.tpc_finish, FS._finish_finish, FS.tpc_vote, FS.undo, FS._txn_undo_write] if case.get('lines') else ()
         s = tr.run(threads, case['schedule'], funcs)
         out.evals = max(1, s.steps)
         out.label('threads')
@@ -79,14 +80,48 @@ def execute_threads(case):
             out.label('threads-pack-completed')
         if ev.count('pack-refused'):
             out.label('threads-second-pack-refused')
+        if 'undo-ok' in ev:
+            out.label('threads-undo-committed')
+        if 'undo-refused' in ev:
+            out.label('threads-undo-refused')
         pack_ticks = [t for t, _, k, _ in tr.events if k in ('pack-start', 'pack-ok')]
-        during = [1 for t, _, k, d_ in tr.events if k == 'commit-ok' and d_[0] and pack_ticks and min(pack_ticks) < t < max(pack_ticks)]
+        during = [1 for t, _, k, d_ in tr.events if k in ('commit-ok', 'undo-ok') and d_[0] and pack_ticks and min(pack_ticks) < t < max(pack_ticks)]
+        if any(1 for t, _, k, d_ in tr.events if k == 'undo-ok' and pack_ticks and min(pack_ticks) < t < max(pack_ticks)):
+            out.label('threads-undo-committed-during-pack')
         if during:
             out.label('threads-commit-returned-during-pack')
+        # a pack that cannot complete may fail (statement); the one known cause under concurrency: an undo committed
+        # while the pack runs points back to a revision the pack has already decided to drop
+        from ZODB.FileStorage.fspack import PackError
+        for t in s.threads:
+            if t.name.startswith('packer') and isinstance(t.exc, PackError) and 'undo-ok' in ev:
+                out.label('threads-pack-failed-because-of-concurrent-undo')
+                t.exc = None
         if not threadprog.thread_problems(s, out, PROPERTY, allowed=(ConflictError,)):
             threadprog.history_oracle(tr, out, PROPERTY)
             if not out.failures:
                 threadprog.snapshot_oracle(tr, out, PROPERTY)
+            if not out.failures:
+                # whatever happened, the storage is usable: the commit lock is free, no pack is marked in
+                # progress, a transaction commits and a pack runs  (a pack that failed with a non-I/O error
+                # leaves its .pack file behind; the next pack overwrites it - junk, not a changed database)
+                import transaction
+                st_ = tr.db.storage
+                if os.path.exists(st_._file_name + '.pack'):
+                    out.label('threads-pack-file-left-by-failed-pack')
+                if st_._commit_lock.locked() or st_._pack_is_in_progress:
+                    out.fail((PROPERTY, 'threads', 'left-over-after-pack'),
+                             'after all threads ended: commit lock held=%r, pack in progress=%r' % (
+                                 st_._commit_lock.locked(), st_._pack_is_in_progress))
+                else:
+                    tm = transaction.TransactionManager()
+                    c = tr.db.open(tm)
+                    c.root()['after'] = 1
+                    tm.commit()
+                    c.close()
+                    clock.CLOCK.advance(1.0)
+                    tr.log('main', 'pack-start', clock.CLOCK.now - 0.5)
+                    tr.db.pack(clock.CLOCK.now - 0.5)
             if not out.failures:
                 # the same after reopening the packed file
                 returned = [(d_[0], d_[1]) for _, _, k, d_ in tr.events if k == 'commit-ok' and d_[0]]
@@ -422,4 +457,4 @@ LEVEL_TEXT = ('For generated histories every prefix of the file operations a pac
               'boundaries per generated history.')
 LEVEL_NOTE = ('Trusted: rawio recording/fault layer; C07\'s protected-region comparison; vlib/sched.py and the event-log oracles for the '
               'thread cases. Crash and fault points are enumerated; thread schedules (packer with committers and readers) are sampled; '
-              'crash points inside a concurrent schedule and undoer threads are not generated.')
+              'crash points inside a concurrent schedule are not generated.')
